@@ -4,6 +4,8 @@
      Q <id> getval <0|1> <enc>  -> same for ILLget_value
      Q <id> print <p/q>      -> A <id> <enc>
      Q <id> lpwrite + SLP block            -> A <id> <enc line>*       (IO/LpWrite.write_lp)
+     Q <id> fixnames <prefix char> <enc name>*   -> A <id> <enc new name>*   (IO/LpNames.fix_names)
+     Q <id> defobj <enc row name>*               -> A <id> <enc>             (the objective name invented for a problem without one)
      Q <id> lprt + SLP block               -> A <id> <wf_lpb 0|1> <OK|ERR|FLT|FUEL> <equiv_by_name P (read_lp (write_lp P))>
      Q <id> mpswrite + MLP block           -> A <id> <enc line>*       (IO/MpsWrite.write_mps)
      Q <id> lpread <0|1> <enc text> + (NONE | SLP block of the library's result) -> A <id> <OK|ERR|FLT|FUEL> <agree> <ncols> <nrows>
@@ -184,6 +186,13 @@ let () =
            let p = (match next_tokens ic with Some h -> read_slp_hdr ic h | None -> failwith "SLP expected") in
            let ls = write_lp !sentinel p in
            Printf.printf "A %s %s\n" id (String.concat " " (List.map (fun l -> enc (string_of_chars l)) ls))
+         | "fixnames", pf :: names ->
+           (* fix_names of lp.c: prefix character, then the names of the table in index order *)
+           let ns = List.map (fun n -> chars_of_string (dec n)) names in
+           Printf.printf "A %s %s\n" id (String.concat " " (List.map (fun l -> enc (string_of_chars l)) (fix_names pf.[0] ns)))
+         | "defobj", names ->
+           let ns = List.map (fun n -> chars_of_string (dec n)) names in
+           Printf.printf "A %s %s\n" id (enc (string_of_chars (default_objname ns)))
          | "lprt", [] ->
            (* the statement of C08_lp_roundtrip evaluated on one problem: <wf_lpb> <outcome of read_lp_res (write_lp P)> <equiv_by_name P P'> *)
            let p = (match next_tokens ic with Some h -> read_slp_hdr ic h | None -> failwith "SLP expected") in
